@@ -14,7 +14,12 @@ HANDLER_CALL_LIMIT = 200000
 TOP_CALL_LIMIT = 20000
 
 
+NAMES = None     # names of the chart built last, when its spec gives explicit (possibly repeated) names
+
+
 def state_name(i):
+  if NAMES is not None and 0 <= i < len(NAMES):
+    return NAMES[i]
   return "vs%d" % i
 
 
@@ -122,6 +127,8 @@ def actions_for(draw, spec, kinds=None, max_sites=6, min_sites=0):
         lst.append([k])
     elif k == "scribble":
       lst.append([k, "note%d" % draw(st.integers(0, 3))])
+    elif k == "is_in":
+      lst.append([k, draw(st.integers(0, n - 1))])
     else:
       lst.append([k])
   return acts
@@ -211,6 +218,8 @@ def build(spec, decorate=None, on_action=None, budget=30):
   from miros.event import signals, return_status
   from miros.hsm import spy_on as deco
 
+  global NAMES
+  NAMES = list(spec["names"]) if spec.get("names") else None
   rt = Runtime(spec, on_action or basic_action, budget)
   if decorate is None:
     decorate = spec.get("spy", False)
